@@ -1192,7 +1192,7 @@ async fn history(case_seed: u64, cfg: &CaseCfg, acc: &mut Acc) {
                 );
             } else {
                 acc.count("info.verify_nonempty_on_original_too");
-                acc.observe("info.verify_errors_on_original", &format!("{va:?}").chars().take(200).collect::<String>());
+                acc.observe("info.verify_errors_on_original", &format!("case_seed={case_seed} {va:?}").chars().take(200).collect::<String>());
             }
         }
         nontrivial_key.push_str(&format!("|{label}"));
